@@ -315,7 +315,16 @@ class Driver:
         except Exception as e:  # an exception from a public API call is itself an observation
             outcome, text = "error:" + type(e).__name__, str(e)[:200]
         sim.count_fault("inject:" + do + ":" + ("accepted" if outcome in ("ok", "interrupted") else outcome.split(":")[0]))
-        sim.record("inject_end", do=do, id=inj.get("id"), outcome=outcome, text=text, state=str(RE.state), state0=state0)
+        sim.record(
+            "inject_end",
+            do=do,
+            id=inj.get("id"),
+            outcome=outcome,
+            text=text,
+            state=str(RE.state),
+            state0=state0,
+            dpr=bool(RE.deferred_pause_requested),
+        )
 
     # -- the user script ---------------------------------------------------------------
     def _blocking(self, api, fn, injections):
